@@ -146,7 +146,7 @@ def real_parse(text, entry, flags):
     try:
         return "ok", fn(text, **flags)
     except GraphQLSyntaxError as e:
-        return "syntax", e.position
+        return "syntax", e.position, type(e).__name__
     except Exception as e:  # noqa
         return "internal:" + type(e).__name__, repr(e)[:200]
 
@@ -280,7 +280,9 @@ def check_case(ctx, c, real, ans, shrink=True):
                      % (("accepts", "does not derive") if ia else ("rejects", "derives")),
                      detail(cc, impl="accept" if ia else "reject", model=ans if not ia else ans.get("err")))
             ok = False
-        elif ia:
+        elif not ia:
+            ok = check_error(ctx, c, real, ans["err"]) and ok
+        if ia == ma and ia:
             want = canon(real[1].to_dict())
             if ans["ok"] != want:
                 ctx.fail("corr:ast-differs:%s:%s" % (c.entry, first_diff(want, ans["ok"])),
@@ -340,6 +342,23 @@ def shrink_mismatch(ctx, c, impl_accepts, rounds=120):
         if got is not None:
             toks = got
     return Case(toks, c.entry, c.flags, c.origin)
+
+
+def check_error(ctx, c, real, err):
+    """both reject: the model's error position and class (UnexpectedEOF / UnexpectedToken) are the real parser's"""
+    pos, cls = real[1], (real[2] if len(real) > 2 else "?")
+    if cls not in ("UnexpectedEOF", "UnexpectedToken"):
+        ctx.stat("error-class=%s(not compared)" % cls)      # a lexer error: not produced by the token-level parser
+        return True
+    ctx.stat("error-class=%s" % cls)
+    mcls = "UnexpectedEOF" if err.get("eof") else "UnexpectedToken"
+    if err.get("pos") != pos or mcls != cls:
+        what = ("position %s" % ("<" if err.get("pos") < pos else ">") if err.get("pos") != pos else "class")
+        ctx.fail("corr:syntax-error-differs:%s:%s:impl=%s" % (c.entry, what, cls),
+                 "model and parser reject with a different error position / class",
+                 detail(c, impl=[pos, cls], model=[err.get("pos"), mcls]), kind="correspondence")
+        return False
+    return True
 
 
 def _mismatch(ctx, k, impl_accepts):
@@ -533,6 +552,7 @@ def exhaustive(ctx, alpha, entry, flags, length, label):
         ans = ctx.driver.ask([dict(op="parse_enum", entry=entry, alphabet=alphabet_json(alpha), len=length,
                                    **flags_json(flags))])[0]
         accepted = {i: a for i, a in ans["accepted"]}
+        errs = iter(ans.get("errs") or [])
         if ans["n"] != len(alpha) ** length:
             ctx.fail("corr:parse-enum-count", "Lean enumeration has the wrong size", {"part": PART, "n": ans["n"]},
                      kind="correspondence")
@@ -546,8 +566,13 @@ def exhaustive(ctx, alpha, entry, flags, length, label):
         real = real_parse(text, entry, flags)
         a = None
         if ans is not None:
-            a = {"ok": accepted[i]} if i in accepted else {"err": "reject"}
-        if real[0] == "syntax" and a is not None and "err" in a and 0 <= real[1] <= len(text):
+            if i in accepted:
+                a = {"ok": accepted[i]}
+            else:
+                ep = next(errs, None)
+                a = {"err": {"pos": ep[0], "eof": bool(ep[1])} if ep is not None else {}}
+        if real[0] == "syntax" and a is not None and "err" in a and 0 <= real[1] <= len(text) \
+                and a["err"].get("pos") == real[1] and a["err"].get("eof") == (real[2] == "UnexpectedEOF"):
             # the overwhelmingly common case, inlined for speed
             ctx.evaluations += 1
             if real[1] > 0:
